@@ -5,7 +5,8 @@
 //! property itself observes (errors about the peer, deliveries per message, drain, quiescence).
 use crate::conn::*;
 use crate::rng::{hex, Rng};
-use mqtt_protocol_core::mqtt::connection::role::{Client, RoleType, Server};
+use mqtt_protocol_core::mqtt::connection::role::{Client, Server};
+use crate::csend::RoleX;
 use std::collections::{HashMap, VecDeque};
 use std::io::Write;
 
@@ -17,7 +18,7 @@ struct Msg {
     accepted: bool,
 }
 
-struct Side<R: RoleType> {
+struct Side<R: RoleX> {
     s: Sess<R, u16>,
     out: VecDeque<u8>,
     auto: bool,
@@ -29,7 +30,7 @@ struct Side<R: RoleType> {
     ver: u8,
 }
 
-impl<R: RoleType> Side<R> {
+impl<R: RoleX> Side<R> {
     fn new(ver: u8, auto: bool) -> Self {
         Side { s: Sess::new(ver), out: VecDeque::new(), auto, delivered: vec![], errs_recv: vec![], errs_send: vec![], closes: 0, alias: HashMap::new(), ver }
     }
